@@ -178,6 +178,19 @@ void check_walk(Tree &t, int dir, Obs *obs)
     CHECK(!wc.overflow, "C01.walk.count", "%s %s walk makes more than %zu visits for %zu elements", t.tag, d, wc.limit, t.n);
     CHECK(rv == 0, "C01.walk.ret", "%s %s walk returned %d although no visit asked to stop", t.tag, d, rv);
     std::vector<const Elem *> stack, inorder;
+    // shape implied by the walk: every bracketed (non-leaf) element encloses at most one item before and
+    // one after its MID visit and at least one in all; a LEAF element encloses nothing; the whole walk is one item
+    struct Frame { int before, after; bool mid; };
+    std::vector<Frame> frames;
+    size_t top_items = 0;
+    auto item_begins = [&]() {
+        if (frames.empty()) { top_items++; return; }
+        Frame &f = frames.back();
+        if (f.mid) f.after++; else f.before++;
+        CHECK(f.before <= 1 && f.after <= 1, "C01.walk.shape",
+              "%s %s walk: more than one subtree between two visits of the same bracketed element "
+              "(an element with children was presented as a LEAF?)", t.tag, d);
+    };
     // per element: 0 none, 1 pre seen, 2 mid seen, 3 done
     for (auto &v : wc.v) {
         // the element must be held (pointer identity against our pool)
@@ -191,22 +204,30 @@ void check_walk(Tree &t, int dir, Obs *obs)
         case CSTL_BINTREE_VISIT_ORDER_PRE:
             CHECK(st == 0, "C01.walk.bracket", "%s PRE visit of an element already visited", t.tag);
             st = 1;
+            item_begins();
+            frames.push_back(Frame{0, 0, false});
             stack.push_back(v.e);
             break;
         case CSTL_BINTREE_VISIT_ORDER_MID:
             CHECK(st == 1, "C01.walk.bracket", "%s MID visit without a preceding PRE", t.tag);
             CHECK(!stack.empty() && stack.back() == v.e, "C01.walk.bracket", "%s MID visit not properly nested", t.tag);
             st = 2;
+            frames.back().mid = true;
             inorder.push_back(v.e);
             break;
         case CSTL_BINTREE_VISIT_ORDER_POST:
             CHECK(st == 2, "C01.walk.bracket", "%s POST visit without PRE and MID", t.tag);
             CHECK(!stack.empty() && stack.back() == v.e, "C01.walk.bracket", "%s POST visit not properly nested", t.tag);
+            CHECK(frames.back().before + frames.back().after >= 1, "C01.walk.shape",
+                  "%s %s walk: element k%d is bracketed by PRE and POST but encloses no other element (a leaf must get one LEAF visit)",
+                  t.tag, d, v.e->key);
+            frames.pop_back();
             stack.pop_back();
             st = 3;
             break;
         case CSTL_BINTREE_VISIT_ORDER_LEAF:
             CHECK(st == 0, "C01.walk.bracket", "%s LEAF visit of an element already visited", t.tag);
+            item_begins();
             st = 3;
             inorder.push_back(v.e);
             break;
@@ -215,6 +236,7 @@ void check_walk(Tree &t, int dir, Obs *obs)
         }
     }
     CHECK(stack.empty(), "C01.walk.bracket", "%s walk ended with %zu elements lacking their POST visit", t.tag, stack.size());
+    CHECK(top_items == (t.n ? 1u : 0u), "C01.walk.shape", "%s %s walk of %zu elements consists of %zu separate subtrees", t.tag, d, t.n, top_items);
     CHECK(inorder.size() == t.n, "C01.walk.count", "%s %s walk presents %zu elements, %zu are held", t.tag, d, inorder.size(), t.n);
     for (auto &v : wc.v) CHECK(v.e->vst == 3, "C01.walk.bracket", "%s element with incomplete visits", t.tag);
     for (size_t i = 1; i < inorder.size(); i++) {
@@ -291,7 +313,10 @@ void rb_check(Tree &t)
     };
     CHECK(ok(mx), "C02.height", "cstl_rbtree_height reports longest path %zu for %zu elements (> 2*log2(n+1))", mx, t.n);
     CHECK(ok(inf.maxdepth), "C02.height", "longest root-to-leaf path is %zu for %zu elements (> 2*log2(n+1))", inf.maxdepth, t.n);
-    // (whether the reported height counts nodes or edges is not part of the statement: only the bound is demanded)
+    // "the longest root-to-leaf path reported by cstl_rbtree_height": the reported number is that path's
+    // length, counted in nodes or in edges (the header does not say which)
+    CHECK(mx == inf.maxdepth || mx + 1 == inf.maxdepth, "C02.height",
+          "cstl_rbtree_height reports longest path %zu, the links give %zu nodes (%zu edges)", mx, inf.maxdepth, inf.maxdepth - 1);
 }
 
 void peek_rec(Tree &t, struct cstl_bintree_node *b, std::string &s, size_t &budget)
@@ -476,6 +501,7 @@ void apply(Tree &t, CaseCtx &cx, int op, uint8_t a, uint8_t b, int K, size_t max
         break;
     }
     case HEIGHT: {
+        if (t.n > 5000 && !audits) { CNT("noop.height_big"); break; }     // O(n * depth): sparse in scale runs
         size_t mn = 12345, mx = 12345;
         t.height(&mn, &mx);
         TRACE("%s height -> min=%zu max=%zu", t.tag, mn, mx);
@@ -483,6 +509,7 @@ void apply(Tree &t, CaseCtx &cx, int op, uint8_t a, uint8_t b, int K, size_t max
         break;
     }
     case AUDIT:
+        if (t.n > 5000 && !audits) { CNT("noop.audit_big"); break; }
         TRACE("%s audit n=%zu", t.tag, t.n);
         full_audit(t, K, obs);
         if (t.n >= 3) cx.walk3 = true;
